@@ -18,5 +18,5 @@ def run(ctx):
         ctx, "C24",
         mc_cfgs=ctx.q(["c24", "c24_xignore"], ["c24_thorough", "c24_xignore"]),
         neg_cfgs=[("neg_co_keep_dirs", "Inv_C24")],
-        gen_cfgs=[("gen_c24", ctx.q(250, 3000)), ("gen_c24_xignore", ctx.q(100, 1500))],
-        n_random=ctx.q(300, 6000), focus="checkout")
+        gen_cfgs=[("gen_c24", ctx.q(250, 2000)), ("gen_c24_xignore", ctx.q(100, 800))],
+        n_random=ctx.q(300, 4000), focus="checkout")
